@@ -309,10 +309,9 @@ func c09Client(c *eng.Ctx) {
 			c.Check(zero && eng.Origin(call.Call.Args[2]) == ssa.Value(nameP), "R-C09-4", f, in.Pos(), eng.CallStr(&call.Call), "plain Get for the same name on the oldVersion == 0 edge", "holding: "+eng.FactsString(in))
 			return
 		}
-		if cal.Origin() != nil && cal.Origin() == anchor(p, setecPkg, "do") {
+		if path, reqV, isReq := apiRequest(p, call); isReq {
 			n++
-			path, _ := eng.ConstString(call.Call.Args[2])
-			fields, _, okF := eng.LiteralFields(eng.Origin(call.Call.Args[3]))
+			fields, _, okF := eng.LiteralFields(eng.Origin(reqV))
 			okk := okF && nonzero && path == "/api/get"
 			if okk {
 				flag, isC := eng.Origin(fields["UpdateIfChanged"]).(*ssa.Const)
@@ -333,11 +332,11 @@ func c09Client(c *eng.Ctx) {
 			if !ok {
 				return
 			}
-			cal := eng.Callee(&call.Call)
-			if cal == nil || cal.Origin() == nil || cal.Origin().Name() != "do" {
+			_, reqV, isReq := apiRequest(p, call)
+			if !isReq {
 				return
 			}
-			fields, _, okF := eng.LiteralFields(eng.Origin(call.Call.Args[3]))
+			fields, _, okF := eng.LiteralFields(eng.Origin(reqV))
 			_, hasFlag := fields["UpdateIfChanged"]
 			c.Check(okF && !hasFlag, "R-C09-4", g, in.Pos(), nm+": "+eng.CallStr(&call.Call), "unconditional reads do not set UpdateIfChanged", "")
 		})
@@ -408,4 +407,51 @@ func c09FileClient(c *eng.Ctx) {
 			c.Bad("R-C09-5", f, r.Pos(), eng.InstrStr(r), "one of (value, nil), ErrValueNotChanged, ErrNotFound", "other result")
 		}
 	}
+}
+
+
+// apiRequest: call posts a request to the service: a call of the generic
+// `do` (path and request value are its arguments), or of a helper of the
+// client that calls `do` with a constant path and one of its own parameters
+// as the request (then the request is the argument handed to the helper).
+func apiRequest(p *eng.Prog, call *ssa.Call) (path string, req ssa.Value, ok bool) {
+	do := anchor(p, setecPkg, "do")
+	cal := eng.Callee(&call.Call)
+	if cal == nil || do == nil {
+		return "", nil, false
+	}
+	if cal == do || cal.Origin() == do {
+		if len(call.Call.Args) < 4 {
+			return "", nil, false
+		}
+		path, _ = eng.ConstString(call.Call.Args[2])
+		return path, call.Call.Args[3], true
+	}
+	if !eng.IsHelper(call.Parent(), cal) {
+		return "", nil, false
+	}
+	var inner *ssa.Call
+	nDo := 0
+	eng.Instrs(cal, func(in ssa.Instruction) {
+		if ic, isC := in.(*ssa.Call); isC {
+			if c2 := eng.Callee(&ic.Call); c2 != nil && (c2 == do || c2.Origin() == do) {
+				inner = ic
+				nDo++
+			}
+		}
+	})
+	if nDo != 1 || len(inner.Call.Args) < 4 {
+		return "", nil, false
+	}
+	path, isC := eng.ConstString(inner.Call.Args[2])
+	prm, isP := eng.Origin(inner.Call.Args[3]).(*ssa.Parameter)
+	if !isC || !isP || prm.Parent() != cal {
+		return "", nil, false
+	}
+	for i, q := range cal.Params {
+		if q == prm && i < len(call.Call.Args) {
+			return path, call.Call.Args[i], true
+		}
+	}
+	return "", nil, false
 }
